@@ -2,10 +2,10 @@ package props
 
 import (
 	"fmt"
-	"go/types"
-	"sort"
 	"go/constant"
 	"go/token"
+	"go/types"
+	"sort"
 	"strings"
 
 	"gcv/internal/an"
@@ -544,8 +544,8 @@ type c01FnGuard struct {
 }
 
 type c01Assume struct {
-	m      c01Matcher
-	holds  bool // the matcher's region holds / does not hold
+	m     c01Matcher
+	holds bool // the matcher's region holds / does not hold
 }
 
 func c01CheckFnGuard(p *core.Program, fg c01FnGuard) (bool, string, string) {
@@ -680,7 +680,7 @@ func c01FnGuards() []c01FnGuard {
 		fg(tap, 4, -1, c01Guard{key: "tapscript/empty-key", what: "an empty public key is fatal", m: an.MatchCmpConst(0, token.EQL, "len", "param#2"), allowed: []c01Matcher{an.MatchCmpConst(0, token.GTR, "len", "param#1"), an.MatchCmpConst(0, token.LEQ, "len", "param#1")}}, bf),
 		fg(tap, 4, -1, c01Guard{key: "tapscript/schnorr", what: "a non-empty signature for a 32-byte key must verify; an empty one is not verified", m: an.MatchBoolCall(false, "(*lib/script.SigChecker).CheckSchnorrSignature"),
 			required: []c01Matcher{an.MatchCmpConst(0, token.GTR, "len", "param#1"), an.MatchCmpConst(32, token.EQL, "len", "param#2")},
-			allowed: []c01Matcher{an.MatchCmpConst(32, token.EQL, "len", "param#2"), an.MatchCmpConst(0, token.GTR, "len", "param#1"), an.MatchCmpConst(0, token.LEQ, "len", "param#1"), an.MatchCmpConst(0, token.NEQ, "len", "param#2"), c01BoolVar(true)}}, bf),
+			allowed:  []c01Matcher{an.MatchCmpConst(32, token.EQL, "len", "param#2"), an.MatchCmpConst(0, token.GTR, "len", "param#1"), an.MatchCmpConst(0, token.LEQ, "len", "param#1"), an.MatchCmpConst(0, token.NEQ, "len", "param#2"), c01BoolVar(true)}}, bf),
 		fg(tap, 4, -1, c01Guard{key: "tapscript/unknown-key-discouraged", what: "unknown key types fail only with the discourage flag", off: []string{"VER_DIS_PUBKEYTYPE"}, m: an.MatchCmpConst(0, token.NEQ, "param#4"), negative: true}, bf),
 		fg(cse, 1, -1, c01Guard{key: "sigenc/der", what: "with DERSIG a non-DER signature is invalid", on: []string{"VER_DERSIG"}, m: an.MatchBoolCall(false, "lib/script.IsValidSignatureEncoding"), allowed: []c01Matcher{an.MatchCmpConst(0, token.NEQ, "len", "param#0")}}, bf),
 		fg(cse, 1, -1, c01Guard{key: "sigenc/der-strictenc", what: "with STRICTENC a non-DER signature is invalid", on: []string{"VER_STRICTENC"}, off: []string{"VER_DERSIG"}, m: an.MatchBoolCall(false, "lib/script.IsValidSignatureEncoding"), allowed: []c01Matcher{an.MatchCmpConst(0, token.NEQ, "len", "param#0")}}, bf),
@@ -937,10 +937,10 @@ func c01OrchGuards() []c01FnGuard {
 			g: c01Guard{key: "witness/taproot-inactive", what: "without the TAPROOT flag a taproot output is anyone-can-spend", off: []string{"VER_TAPROOT"}}},
 		{fn: vwp, flagsIdx: 4, svIdx: -1, fix: map[int]int64{2: 1, 5: 0}, fail: bf, assume: []c01Assume{{an.MatchCmpConst(32, token.EQL, "len", "param#3"), true}},
 			returns: []string{"false", "call:(*lib/script.SigChecker).CheckSchnorrSignature", "call:(*lib/script.SigChecker).ExecuteWitnessScript"},
-			g: c01Guard{key: "witness/taproot-outcomes", what: "taproot: key-path Schnorr verdict, tapscript verdict, or failure; unknown leaf versions fail when discouraged", on: []string{"VER_TAPROOT", "VER_DIS_TAPVER"}}},
+			g:       c01Guard{key: "witness/taproot-outcomes", what: "taproot: key-path Schnorr verdict, tapscript verdict, or failure; unknown leaf versions fail when discouraged", on: []string{"VER_TAPROOT", "VER_DIS_TAPVER"}}},
 		{fn: vwp, flagsIdx: 4, svIdx: -1, fix: map[int]int64{2: 1, 5: 0}, fail: bf, assume: []c01Assume{{an.MatchCmpConst(32, token.EQL, "len", "param#3"), true}},
 			returns: []string{"false", "true", "call:(*lib/script.SigChecker).CheckSchnorrSignature", "call:(*lib/script.SigChecker).ExecuteWitnessScript"},
-			g: c01Guard{key: "witness/taproot-unknown-leaf", what: "taproot: unknown leaf versions succeed when not discouraged", on: []string{"VER_TAPROOT"}, off: []string{"VER_DIS_TAPVER"}}},
+			g:       c01Guard{key: "witness/taproot-unknown-leaf", what: "taproot: unknown leaf versions succeed when not discouraged", on: []string{"VER_TAPROOT"}, off: []string{"VER_DIS_TAPVER"}}},
 	}
 	tr := func(g c01Guard) c01FnGuard {
 		g.on = append(g.on, "VER_TAPROOT")
